@@ -150,6 +150,10 @@ type Engine struct {
 	snapDone chan struct{}   // channel to signal snapshot compactions to stop
 	snapWG   *sync.WaitGroup // waitgroup for running snapshot compactions
 
+	// snapshotDeleteMu serialises cache snapshots (from taking the snapshot to installing
+	// its file) with deletes; see WriteSnapshot and deleteSeriesRange.
+	snapshotDeleteMu sync.Mutex
+
 	id           uint64
 	path         string
 	sfile        *tsdb.SeriesFile
@@ -1552,6 +1556,11 @@ func (e *Engine) deleteSeriesRange(seriesKeys [][]byte, min, max int64) error {
 		return nil
 	}
 
+	// Wait for a cache snapshot in flight and keep new ones out until this batch is done:
+	// the points it holds are neither in the cache nor in an installed file.
+	e.snapshotDeleteMu.Lock()
+	defer e.snapshotDeleteMu.Unlock()
+
 	// Min and max time in the engine are slightly different from the query language values.
 	if min == influxql.MinTime {
 		min = math.MinInt64
@@ -1914,6 +1923,11 @@ func (e *Engine) WriteTo(w io.Writer) (n int64, err error) { panic("not implemen
 
 // WriteSnapshot will snapshot the cache and write a new TSM file with its contents, releasing the snapshot when done.
 func (e *Engine) WriteSnapshot() (err error) {
+	// A delete must not run between taking the cache snapshot and installing its file:
+	// it would neither find the points in the cache nor tombstone them in the new file.
+	e.snapshotDeleteMu.Lock()
+	defer e.snapshotDeleteMu.Unlock()
+
 	// Lock and grab the cache snapshot along with all the closed WAL
 	// filenames associated with the snapshot
 
